@@ -138,6 +138,18 @@ CHECKS["C06"] = dict(
     note=TB + "IKNP theorems relative to delivered base OTs; crypto/elliptic trusted (CO proved in an abstract group); RSA key "
               "relation and PKCS#1 round trip are hypotheses; the malicious consistency check itself is C15.")
 
+CHECKS["C20"] = dict(
+    category="proof", design_ref="DESIGN.md section 2 / C20",
+    technique="Lean 4 theorems over an executable model + differential correspondence (byte-exact messages and share vectors) + implementation-side relation oracle",
+    text=("Proved for every PRG, label list, m >= 1, 0 < p <= 2^256 and y < 2^256: vole sessions never error, r and u stay "
+          "below p and u - r = x*y (mod p); the bytes32 and packed-vector round trips and the exact panic bound; Fx shares XOR "
+          "to a*b and Fxk shares to [b=1]*s, FromOT(ToOT(l)) = l, for every OT satisfying OtSpec. Tied to /repo on every "
+          "run: real vole over real IKNP (ideal and CO base OT, labels recovered by a shadow IKNPSender) reproduced byte for "
+          "byte by the model, real bmr.Fx*/ToOT/FromOT, and relation oracles on the real outputs over the length x modulus "
+          "x element grid of the property."),
+    note=TB + "IKNP and OT are parameters in the theorems (C06 supplies OtSpec and chunking); AES-CTR is an arbitrary function; "
+              "negative big.Int values and values >= 2^256 are outside the domain (the latter provably panic).")
+
 NOT_YET = {}
 
 PROPS = [json.loads(l)["id"] for l in open(os.path.join(VERIF, "properties.jsonl"))]
